@@ -1,0 +1,612 @@
+//! Handles on the crate-private HTTP codecs, streams, the tunnel and the side-channel handlers,
+//! plus mirror traits for a scripted forwarder and a scripted HTTP stream.
+
+use crate::forwarder::Forwarder;
+use crate::http_codec::HttpCodec;
+use crate::tls_demultiplexer::Protocol;
+use crate::verif::ctx::{ConnErr, Ctx, Dest};
+use crate::verif::pipes::{boxed_sink, boxed_source, test_id, RealSink, RealSource, VSink, VSource};
+use crate::{
+    authentication, core, datagram_pipe, forwarder, http_codec, http_demultiplexer,
+    http_downstream, http_forwarded_stream, http_ping_handler, http_speedtest_handler, log_utils,
+    net_utils, pipe, reverse_proxy, tunnel, udp_forwarder,
+};
+use async_trait::async_trait;
+use bytes::Bytes;
+use std::io;
+use std::net::{IpAddr, SocketAddr};
+use std::pin::Pin;
+use std::sync::Arc;
+use std::task::{Context, Poll};
+use std::time::Duration;
+use tokio::io::{AsyncRead, AsyncWrite, ReadBuf};
+
+#[derive(Debug, Clone, Copy, PartialEq, Eq, Hash, PartialOrd, Ord)]
+pub enum Proto {
+    H1,
+    H2,
+    H3,
+}
+
+impl From<Protocol> for Proto {
+    fn from(p: Protocol) -> Self {
+        match p {
+            Protocol::Http1 => Proto::H1,
+            Protocol::Http2 => Proto::H2,
+            Protocol::Http3 => Proto::H3,
+        }
+    }
+}
+
+impl From<Proto> for Protocol {
+    fn from(p: Proto) -> Self {
+        match p {
+            Proto::H1 => Protocol::Http1,
+            Proto::H2 => Protocol::Http2,
+            Proto::H3 => Protocol::Http3,
+        }
+    }
+}
+
+#[derive(Debug, Clone, Copy, PartialEq, Eq, Hash)]
+pub enum Chan {
+    Tunnel,
+    Ping,
+    Speedtest,
+    ReverseProxy,
+}
+
+impl From<net_utils::Channel> for Chan {
+    fn from(c: net_utils::Channel) -> Self {
+        match c {
+            net_utils::Channel::Tunnel => Chan::Tunnel,
+            net_utils::Channel::Ping => Chan::Ping,
+            net_utils::Channel::Speedtest => Chan::Speedtest,
+            net_utils::Channel::ReverseProxy => Chan::ReverseProxy,
+        }
+    }
+}
+
+/// Any duplex byte stream with a fixed peer address
+pub struct IoWithPeer<T> {
+    pub io: T,
+    pub peer: SocketAddr,
+}
+
+impl<T> net_utils::PeerAddr for IoWithPeer<T> {
+    fn peer_addr(&self) -> io::Result<SocketAddr> {
+        Ok(self.peer)
+    }
+}
+
+impl<T: AsyncRead + Unpin> AsyncRead for IoWithPeer<T> {
+    fn poll_read(
+        mut self: Pin<&mut Self>,
+        cx: &mut Context<'_>,
+        buf: &mut ReadBuf<'_>,
+    ) -> Poll<io::Result<()>> {
+        Pin::new(&mut self.io).poll_read(cx, buf)
+    }
+}
+
+impl<T: AsyncWrite + Unpin> AsyncWrite for IoWithPeer<T> {
+    fn poll_write(
+        mut self: Pin<&mut Self>,
+        cx: &mut Context<'_>,
+        data: &[u8],
+    ) -> Poll<io::Result<usize>> {
+        Pin::new(&mut self.io).poll_write(cx, data)
+    }
+
+    fn poll_flush(mut self: Pin<&mut Self>, cx: &mut Context<'_>) -> Poll<io::Result<()>> {
+        Pin::new(&mut self.io).poll_flush(cx)
+    }
+
+    fn poll_shutdown(mut self: Pin<&mut Self>, cx: &mut Context<'_>) -> Poll<io::Result<()>> {
+        Pin::new(&mut self.io).poll_shutdown(cx)
+    }
+}
+
+/// Plain mirror of `authentication::Source`
+#[derive(Debug, Clone, PartialEq, Eq)]
+pub enum AuthView {
+    Sni(String),
+    ProxyBasic(String),
+}
+
+impl From<&authentication::Source<'_>> for AuthView {
+    fn from(x: &authentication::Source<'_>) -> Self {
+        match x {
+            authentication::Source::Sni(x) => AuthView::Sni(x.to_string()),
+            authentication::Source::ProxyBasic(x) => AuthView::ProxyBasic(x.to_string()),
+        }
+    }
+}
+
+impl AuthView {
+    pub(crate) fn to_real(&self) -> authentication::Source<'static> {
+        match self {
+            AuthView::Sni(x) => authentication::Source::Sni(x.clone().into()),
+            AuthView::ProxyBasic(x) => authentication::Source::ProxyBasic(x.clone().into()),
+        }
+    }
+}
+
+// ---------------------------------------------------------------------------------------
+// Codec / stream handles
+// ---------------------------------------------------------------------------------------
+
+pub struct Codec(pub(crate) Box<dyn HttpCodec>);
+pub struct Stream(pub(crate) Box<dyn http_codec::Stream>);
+pub struct PendingReq(pub(crate) Box<dyn http_codec::PendingRequest>);
+pub struct Respond(pub(crate) Box<dyn http_codec::PendingRespond>);
+pub struct Responded(pub(crate) Box<dyn http_codec::RespondedStreamSink>);
+pub struct DropSink(pub(crate) Box<dyn http_codec::DroppingSink>);
+
+/// The real `Core::make_tcp_http_codec` (HTTP/1.1 or HTTP/2) over any duplex stream
+pub fn make_codec<IO>(ctx: &Ctx, proto: Proto, io: IO, peer: SocketAddr, id: u64) -> io::Result<Codec>
+where
+    IO: 'static + AsyncRead + AsyncWrite + Unpin + Send,
+{
+    core::Core::verif_make_tcp_http_codec(
+        proto.into(),
+        ctx.context.settings.clone(),
+        IoWithPeer { io, peer },
+        test_id(id),
+    )
+    .map(Codec)
+}
+
+impl Codec {
+    pub async fn listen(&mut self) -> io::Result<Option<Stream>> {
+        Ok(self.0.listen().await?.map(Stream))
+    }
+
+    pub async fn graceful_shutdown(&mut self) -> io::Result<()> {
+        self.0.graceful_shutdown().await
+    }
+
+    pub fn protocol(&self) -> Proto {
+        self.0.protocol().into()
+    }
+
+    /// The real `http_codec::stream_into_codec`
+    pub fn from_stream(stream: Stream, proto: Proto) -> Codec {
+        Codec(Box::new(http_codec::stream_into_codec(stream.0, proto.into())))
+    }
+}
+
+impl Stream {
+    pub fn request(&self) -> http::request::Parts {
+        self.0.request().clone_request()
+    }
+
+    pub fn client_address(&self) -> io::Result<IpAddr> {
+        self.0.request().client_address()
+    }
+
+    pub fn auth_info(&self) -> Result<Option<AuthView>, String> {
+        self.0
+            .request()
+            .auth_info()
+            .map(|x| x.as_ref().map(AuthView::from))
+            .map_err(|e| e.to_string())
+    }
+
+    pub fn split(self) -> (PendingReq, Respond) {
+        let (a, b) = self.0.split();
+        (PendingReq(a), Respond(b))
+    }
+}
+
+impl PendingReq {
+    pub fn request(&self) -> http::request::Parts {
+        self.0.clone_request()
+    }
+
+    pub fn finalize(self) -> RealSource {
+        RealSource(self.0.finalize())
+    }
+}
+
+impl Respond {
+    pub fn send_intermediate_response(&self, r: http::response::Parts) -> io::Result<()> {
+        self.0.send_intermediate_response(r)
+    }
+
+    pub fn send_response(self, r: http::response::Parts, eof: bool) -> io::Result<Responded> {
+        self.0.send_response(r, eof).map(Responded)
+    }
+
+    pub fn send_ok_response(self, eof: bool) -> io::Result<Responded> {
+        self.0.send_ok_response(eof).map(Responded)
+    }
+
+    pub fn send_bad_response(
+        self,
+        status: http::StatusCode,
+        extra_headers: Vec<(String, String)>,
+    ) -> io::Result<()> {
+        self.0.send_bad_response(status, extra_headers)
+    }
+}
+
+impl Responded {
+    pub fn into_pipe_sink(self) -> RealSink {
+        RealSink(self.0.into_pipe_sink())
+    }
+
+    pub fn into_datagram_sink(self) -> DropSink {
+        DropSink(self.0.into_datagram_sink())
+    }
+}
+
+impl DropSink {
+    /// `Ok(true)` = sent, `Ok(false)` = dropped
+    pub fn write(&mut self, data: Bytes) -> io::Result<bool> {
+        self.0
+            .write(data)
+            .map(|s| matches!(s, datagram_pipe::SendStatus::Sent))
+    }
+}
+
+// ---------------------------------------------------------------------------------------
+// Mirror HTTP stream (a stream whose pieces the harness scripts)
+// ---------------------------------------------------------------------------------------
+
+pub trait VRespond: Send {
+    fn send_intermediate(&self, response: http::response::Parts) -> io::Result<()>;
+    fn send_response(
+        self: Box<Self>,
+        response: http::response::Parts,
+        eof: bool,
+    ) -> io::Result<Box<dyn VSink>>;
+}
+
+pub struct MirrorStream {
+    pub request: http::request::Parts,
+    pub client_address: IpAddr,
+    pub source: Box<dyn VSource>,
+    pub respond: Box<dyn VRespond>,
+}
+
+struct MStream {
+    req: MReq,
+    resp: MResp,
+}
+struct MReq {
+    request: http::request::Parts,
+    client_address: IpAddr,
+    source: Box<dyn VSource>,
+    id: log_utils::IdChain<u64>,
+}
+struct MResp {
+    respond: Box<dyn VRespond>,
+    id: log_utils::IdChain<u64>,
+}
+struct MResponded {
+    sink: Box<dyn VSink>,
+    id: log_utils::IdChain<u64>,
+}
+
+impl http_codec::Stream for MStream {
+    fn id(&self) -> log_utils::IdChain<u64> {
+        self.req.id.clone()
+    }
+    fn request(&self) -> &dyn http_codec::PendingRequest {
+        &self.req
+    }
+    fn split(
+        self: Box<Self>,
+    ) -> (
+        Box<dyn http_codec::PendingRequest>,
+        Box<dyn http_codec::PendingRespond>,
+    ) {
+        (Box::new(self.req), Box::new(self.resp))
+    }
+}
+
+impl http_codec::PendingRequest for MReq {
+    fn id(&self) -> log_utils::IdChain<u64> {
+        self.id.clone()
+    }
+    fn request(&self) -> &http_codec::RequestHeaders {
+        &self.request
+    }
+    fn client_address(&self) -> io::Result<IpAddr> {
+        Ok(self.client_address)
+    }
+    fn finalize(self: Box<Self>) -> Box<dyn pipe::Source> {
+        Box::new(crate::verif::pipes::SourceFromV(self.source, self.id))
+    }
+}
+
+impl http_codec::PendingRespond for MResp {
+    fn id(&self) -> log_utils::IdChain<u64> {
+        self.id.clone()
+    }
+    fn send_intermediate_response(&self, r: http_codec::ResponseHeaders) -> io::Result<()> {
+        self.respond.send_intermediate(r)
+    }
+    fn send_response(
+        self: Box<Self>,
+        response: http_codec::ResponseHeaders,
+        eof: bool,
+    ) -> io::Result<Box<dyn http_codec::RespondedStreamSink>> {
+        let id = self.id;
+        let sink = self.respond.send_response(response, eof)?;
+        Ok(Box::new(MResponded { sink, id }))
+    }
+}
+
+impl http_codec::RespondedStreamSink for MResponded {
+    fn into_pipe_sink(self: Box<Self>) -> Box<dyn pipe::Sink> {
+        Box::new(crate::verif::pipes::SinkFromV(self.sink, self.id))
+    }
+    fn into_datagram_sink(self: Box<Self>) -> Box<dyn http_codec::DroppingSink> {
+        self
+    }
+}
+
+impl http_codec::DroppingSink for MResponded {
+    fn write(&mut self, data: Bytes) -> io::Result<datagram_pipe::SendStatus> {
+        let rest = self.sink.write(data)?;
+        Ok(if rest.is_empty() {
+            datagram_pipe::SendStatus::Sent
+        } else {
+            datagram_pipe::SendStatus::Dropped
+        })
+    }
+}
+
+impl Stream {
+    pub fn from_mirror(m: MirrorStream, id: u64) -> Stream {
+        let id = test_id(id);
+        Stream(Box::new(MStream {
+            req: MReq {
+                request: m.request,
+                client_address: m.client_address,
+                source: m.source,
+                id: id.clone(),
+            },
+            resp: MResp {
+                respond: m.respond,
+                id,
+            },
+        }))
+    }
+}
+
+/// The real `http_forwarded_stream::into_forwarded`
+pub fn into_forwarded(stream: Stream) -> io::Result<(RealSource, RealSink)> {
+    http_forwarded_stream::into_forwarded(stream.0).map(|(a, b)| (RealSource(a), RealSink(b)))
+}
+
+/// The real `HttpDemux::select`
+pub fn http_demux_select(ctx: &Ctx, proto: Proto, request: &http::request::Parts) -> Chan {
+    http_demultiplexer::HttpDemux::new(ctx.context.settings.clone())
+        .select(proto.into(), request)
+        .into()
+}
+
+// ---------------------------------------------------------------------------------------
+// Scripted forwarder
+// ---------------------------------------------------------------------------------------
+
+#[derive(Debug, Clone)]
+pub struct ConnMeta {
+    pub client_address: IpAddr,
+    pub destination: Dest,
+    pub auth: Option<AuthView>,
+    pub tls_domain: String,
+    pub user_agent: Option<String>,
+}
+
+#[derive(Debug, Clone, Copy, PartialEq, Eq)]
+pub enum MuxChoice {
+    /// hand out the real multiplexer of the direct forwarder
+    Real,
+    /// fail creation with this OS error
+    Fail(i32),
+    /// (ICMP only) not configured
+    NotConfigured,
+}
+
+#[async_trait]
+pub trait VForwarder: Send + Sync {
+    async fn connect(
+        &self,
+        meta: ConnMeta,
+    ) -> Result<(Box<dyn VSource>, Box<dyn VSink>), ConnErr>;
+
+    async fn check_auth(
+        &self,
+        _client_address: IpAddr,
+        _tls_domain: String,
+        _auth: AuthView,
+        _user_agent: Option<String>,
+    ) -> Result<(), ConnErr> {
+        Ok(())
+    }
+
+    fn udp_mux(&self, _client_address: IpAddr, _auth: Option<AuthView>) -> MuxChoice {
+        MuxChoice::Real
+    }
+
+    fn icmp_mux(&self) -> MuxChoice {
+        MuxChoice::Real
+    }
+}
+
+struct FwdFromV {
+    v: Arc<dyn VForwarder>,
+    context: Arc<core::Context>,
+}
+
+struct ConnectorFromV(Arc<dyn VForwarder>);
+struct MuxAuthFromV(Arc<dyn VForwarder>);
+
+#[async_trait]
+impl forwarder::TcpConnector for ConnectorFromV {
+    async fn connect(
+        self: Box<Self>,
+        _id: log_utils::IdChain<u64>,
+        meta: forwarder::TcpConnectionMeta,
+    ) -> Result<(Box<dyn pipe::Source>, Box<dyn pipe::Sink>), tunnel::ConnectionError> {
+        let view = ConnMeta {
+            client_address: meta.client_address,
+            destination: Dest::from(&meta.destination),
+            auth: meta.auth.as_ref().map(AuthView::from),
+            tls_domain: meta.tls_domain.clone(),
+            user_agent: meta.user_agent.clone(),
+        };
+        match self.0.connect(view).await {
+            Ok((src, snk)) => Ok((boxed_source(src, 9), boxed_sink(snk, 9))),
+            Err(e) => Err(e.into_real()),
+        }
+    }
+}
+
+#[async_trait]
+impl forwarder::DatagramMultiplexerAuthenticator for MuxAuthFromV {
+    async fn check_auth(
+        self: Box<Self>,
+        client_address: IpAddr,
+        tls_domain: &'_ str,
+        auth: authentication::Source<'_>,
+        user_agent: Option<&'_ str>,
+    ) -> Result<(), tunnel::ConnectionError> {
+        self.0
+            .check_auth(
+                client_address,
+                tls_domain.to_string(),
+                AuthView::from(&auth),
+                user_agent.map(String::from),
+            )
+            .await
+            .map_err(ConnErr::into_real)
+    }
+}
+
+impl Forwarder for FwdFromV {
+    fn tcp_connector(&self) -> Box<dyn forwarder::TcpConnector> {
+        Box::new(ConnectorFromV(self.v.clone()))
+    }
+
+    fn datagram_mux_authenticator(&self) -> Box<dyn forwarder::DatagramMultiplexerAuthenticator> {
+        Box::new(MuxAuthFromV(self.v.clone()))
+    }
+
+    fn make_udp_datagram_multiplexer(
+        &self,
+        id: log_utils::IdChain<u64>,
+        meta: forwarder::UdpMultiplexerMeta,
+    ) -> io::Result<forwarder::UdpMultiplexer> {
+        match self
+            .v
+            .udp_mux(meta.client_address, meta.auth.as_ref().map(AuthView::from))
+        {
+            MuxChoice::Real => udp_forwarder::make_multiplexer(self.context.clone(), id),
+            MuxChoice::Fail(code) => Err(io::Error::from_raw_os_error(code)),
+            MuxChoice::NotConfigured => Err(io::Error::new(io::ErrorKind::Other, "not configured")),
+        }
+    }
+
+    fn make_icmp_datagram_multiplexer(
+        &self,
+        id: log_utils::IdChain<u64>,
+    ) -> io::Result<Option<forwarder::IcmpMultiplexer>> {
+        match self.v.icmp_mux() {
+            MuxChoice::Real => self
+                .context
+                .icmp_forwarder
+                .as_ref()
+                .map(|x| x.make_multiplexer(id))
+                .transpose(),
+            MuxChoice::Fail(code) => Err(io::Error::from_raw_os_error(code)),
+            MuxChoice::NotConfigured => Ok(None),
+        }
+    }
+}
+
+pub enum Fwd {
+    /// what `Core::make_forwarder` returns for the settings (direct or SOCKS5)
+    Real,
+    Scripted(Arc<dyn VForwarder>),
+}
+
+#[derive(Debug, Clone)]
+pub enum Policy {
+    Default,
+    /// the connection was authenticated by these SNI credentials
+    AuthenticatedSni(String),
+}
+
+/// The real `Tunnel` over the real `HttpDownstream` over `codec`, run to completion.
+pub async fn run_tunnel(
+    ctx: &Ctx,
+    codec: Codec,
+    tls_domain: &str,
+    fwd: Fwd,
+    policy: Policy,
+    id: u64,
+) -> io::Result<()> {
+    let context = ctx.context.clone();
+    let forwarder: Box<dyn Forwarder> = match fwd {
+        Fwd::Real => core::Core::verif_make_forwarder(context.clone()),
+        Fwd::Scripted(v) => Box::new(FwdFromV {
+            v,
+            context: context.clone(),
+        }),
+    };
+    let mut t = tunnel::Tunnel::new(
+        context.clone(),
+        Box::new(http_downstream::HttpDownstream::new(
+            context,
+            codec.0,
+            tls_domain.to_string(),
+        )),
+        forwarder,
+        match policy {
+            Policy::Default => tunnel::AuthenticationPolicy::Default,
+            Policy::AuthenticatedSni(x) => tunnel::AuthenticationPolicy::Authenticated(
+                authentication::Source::Sni(x.into()),
+            ),
+        },
+        test_id(id),
+    );
+    t.listen().await
+}
+
+/// The real `Core::on_tunnel_request` (SNI authentication, session gauge, real forwarder)
+pub async fn run_tunnel_request(
+    ctx: &Ctx,
+    codec: Codec,
+    tls_domain: &str,
+    sni_auth_creds: Option<String>,
+    id: u64,
+) {
+    let proto = codec.0.protocol();
+    core::Core::verif_on_tunnel_request(
+        ctx.context.clone(),
+        proto,
+        codec.0,
+        tls_domain.to_string(),
+        sni_auth_creds,
+        test_id(id),
+    )
+    .await
+}
+
+pub async fn run_ping(ctx: &Ctx, codec: Codec, timeout: Duration, id: u64) {
+    http_ping_handler::listen(ctx.context.shutdown.clone(), codec.0, timeout, test_id(id)).await
+}
+
+pub async fn run_speedtest(ctx: &Ctx, codec: Codec, timeout: Duration, id: u64) {
+    http_speedtest_handler::listen(ctx.context.shutdown.clone(), codec.0, timeout, test_id(id))
+        .await
+}
+
+pub async fn run_reverse_proxy(ctx: &Ctx, codec: Codec, sni: &str, id: u64) {
+    reverse_proxy::listen(ctx.context.clone(), codec.0, sni.to_string(), test_id(id)).await
+}
